@@ -71,6 +71,9 @@ func resetHooks() {
 	hooks.mu.Lock()
 	hooks.timeCalls, hooks.strCalls, hooks.fldCalls, hooks.genCalls = map[evKey]int{}, map[evKey]int{}, map[evKey]int{}, map[evKey]int{}
 	hooks.byTask = map[evKey][]string{}
+	ctxSharedMu.Lock()
+	ctxShared = map[int][]log.Field{}
+	ctxSharedMu.Unlock()
 	hooks.mu.Unlock()
 }
 
@@ -85,9 +88,26 @@ func evTime(k evKey) time.Time {
 
 func ctxString(k evKey) string { return fmt.Sprintf("trace-%d-%d", k.task, k.seq) }
 
+// ctxFields returns the context fields of the "request" an event belongs to. Like real
+// request-scoped metadata it is ONE slice per request, handed to every event of that
+// request (several tasks share a request), and it has spare capacity: the library may
+// read it but must not append into it.
 func ctxFields(k evKey) []log.Field {
-	return []log.Field{log.String("trace_id", fmt.Sprintf("tr%04d%04d", k.task, k.seq)), log.Int("span", k.task*1000+k.seq)}
+	req := k.task % 2
+	ctxSharedMu.Lock()
+	defer ctxSharedMu.Unlock()
+	if ctxShared[req] == nil {
+		s := make([]log.Field, 2, 16)
+		s[0], s[1] = log.String("trace_id", fmt.Sprintf("trREQ%04d", req)), log.Int("span", 7000+req)
+		ctxShared[req] = s
+	}
+	return ctxShared[req]
 }
+
+var (
+	ctxSharedMu sync.Mutex
+	ctxShared   = map[int][]log.Field{}
+)
 
 // installHooks sets the three context hooks (counting, keyed by context value).
 func installHooks(timeHook, strHook, fldHook bool) {
